@@ -57,6 +57,11 @@ struct RunOut {
     after_restart: Option<BTreeMap<KeyId, KeyObs>>,
     restart_err: Option<String>,
     corrupted_after: usize,
+    /// a further restart with every index file removed (what a stop without close leaves):
+    /// indexes are regenerated from the blobs, torn bytes of a failed append are scanned
+    after_restart_noindex: Option<BTreeMap<KeyId, KeyObs>>,
+    restart_noindex_err: Option<String>,
+    corrupted_after_noindex: usize,
     quarantined_bytes: Vec<u8>,
     findings: Vec<Finding>,
     fired: bool,
@@ -157,7 +162,29 @@ async fn main_task(spec: FaultSpec) -> RunOut {
             for v in crate::tap::snapshot_violations(&snap, &crate::tap::snapshot_blobs(&dir)) {
                 out.no_harm.push(finding("snapshot", format!("across the final close + restart: {v}")));
             }
+            let snap2 = crate::tap::snapshot_blobs(&dir);
             let _ = w.close().await;
+            for (n, _) in world::dir_listing(&dir) {
+                if n.ends_with(".index") {
+                    let _ = std::fs::remove_file(dir.join(n));
+                }
+            }
+            match w.init(false).await {
+                Err(e) => out.restart_noindex_err = Some(format!("{e:#}")),
+                Ok(()) => {
+                    ctl::quiesce().await;
+                    let mut obs = BTreeMap::new();
+                    for k in &spec.keys {
+                        obs.insert(*k, w.observe_key(*k, &[0]).await);
+                    }
+                    out.after_restart_noindex = Some(obs);
+                    out.corrupted_after_noindex = w.s().corrupted_blobs_count();
+                    for v in crate::tap::snapshot_violations(&snap2, &crate::tap::snapshot_blobs(&dir)) {
+                        out.no_harm.push(finding("snapshot", format!("across the restart without index files: {v}")));
+                    }
+                    let _ = w.close().await;
+                }
+            }
         }
     }
     for (_, p) in crate::blobfile::blob_files(&dir.join("corrupted")) {
@@ -305,15 +332,20 @@ fn judge(spec: &FaultSpec, run: &RunOut, end: &EndState, panics: &[String], orac
         }
     }
     let m = cands.remove(0);
-    // after restart
-    if let Some(e) = &run.restart_err {
-        fs.push(finding("restart", format!("init after the session failed: {e}")));
-        return fs;
-    }
-    if let Some(obs) = &run.after_restart {
+    // after restart, and after a further restart without index files
+    let phases: [(&str, &Option<String>, &Option<BTreeMap<KeyId, KeyObs>>, usize); 2] = [
+        ("restart", &run.restart_err, &run.after_restart, run.corrupted_after),
+        ("restart without index files", &run.restart_noindex_err, &run.after_restart_noindex, run.corrupted_after_noindex),
+    ];
+    for (what, err, obs, corrupted) in phases {
+        if let Some(e) = err {
+            fs.push(finding("restart", format!("init ({what}) after the session failed: {e}")));
+            return fs;
+        }
+        let Some(obs) = obs else { continue };
         for (k, ko) in obs {
             let want = oracle::model_key_obs(&m, *k, &[0]);
-            if ko.read == want.read && ko.all_wdm == want.all_wdm {
+            if ko.read == want.read && ko.all_wdm == want.all_wdm && ko.contains == want.contains {
                 continue;
             }
             // not served as before: acceptable only if every acknowledged value of this key that is
@@ -324,7 +356,7 @@ fn judge(spec: &FaultSpec, run: &RunOut, end: &EndState, panics: &[String], orac
             };
             for (fk, fb) in &failed_values {
                 if fk == k && served.contains(&world::value_tag(fb)) {
-                    fs.push(finding("failed_op_served", format!("k{k}: a write that returned an error is served after restart")));
+                    fs.push(finding("failed_op_served", format!("k{k}: a write that returned an error is served after the {what}")));
                 }
             }
             let mut lost = Vec::new();
@@ -339,15 +371,18 @@ fn judge(spec: &FaultSpec, run: &RunOut, end: &EndState, panics: &[String], orac
                     }
                 }
             }
-            if !lost.is_empty() || run.corrupted_after == 0 {
+            if !lost.is_empty() || corrupted == 0 {
                 fs.push(finding(
                     "restart_answers",
                     format!(
-                        "after restart k{k}: read {:?} / list {:?}, model {:?} / {:?}; quarantined blobs {}; acknowledged values neither served nor intact in quarantine: {:?}",
-                        ko.read, ko.all_wdm, want.read, want.all_wdm, run.corrupted_after, lost
+                        "after the {what} k{k}: read {:?} / contains {:?} / list {:?}, model {:?} / {:?} / {:?}; quarantined blobs {}; acknowledged values neither served nor intact in quarantine: {:?}",
+                        ko.read, ko.contains, ko.all_wdm, want.read, want.contains, want.all_wdm, corrupted, lost
                     ),
                 ));
             }
+        }
+        if !fs.is_empty() {
+            return fs;
         }
     }
     fs
@@ -490,6 +525,7 @@ pub fn run(specs: &[FaultSpec], thorough: bool, with_reads: bool, threads: usize
                     let mut h = std::collections::hash_map::DefaultHasher::new();
                     out.steps.iter().map(|s| (&s.outcome, s.fired_here)).collect::<Vec<_>>().hash(&mut h);
                     out.corrupted_after.hash(&mut h);
+                    out.corrupted_after_noindex.hash(&mut h);
                     h.finish()
                 };
                 results.lock().unwrap().push((i, fs, out.fired, digest));
